@@ -15,7 +15,7 @@ from ..core import SEED, Run
 from ..pool import run_ops
 from ..tlc import validate_traces
 
-QREPL = ["(", ")", "sq", "dq", "bsl", ":", "$", "!", "{", "sp", "nl", "bt"]
+QREPL = ["(", ")", "]", "}", "sq", "dq", "bsl", ":", "$", "!", "{", "sp", "nl", "bt", ","]
 TIERS = {
     "quick": dict(char=[("num", 3), ("op", 2), ("str", 3), ("indent", 4), ("xonsh", 3), ("all", 2), ("py", 3)], soup=(30, 40),
                   hv=25, repl=QREPL, variants=1, maxseed=160),
@@ -85,6 +85,8 @@ def check(run: Run) -> None:
         add(c["src"][1:-1] + "\n", "fstring.tla:stmt")
     for c in gens.lexgen(run, 3 if run.tier == "quick" else 4)[:: (4 if run.tier == "quick" else 1)]:
         add(c["src"], "lexgen")
+    for c in gens.indent(run)[:: (3 if run.tier == "quick" else 1)]:
+        add(c["src"], "indent.tla")
     by_op = {}
     for i, c in enumerate(cases):
         by_op.setdefault(c["op"], []).append(i)
